@@ -150,11 +150,11 @@ def check_op(fn, pv, ins):
     return 'UNDECIDED', '%s: operands are bounded by some guard, but the no-wrap goal is not derivable from the facts' % expr
 
 
-def find_sinks(fn, length_fields=(), compare=False, taint=None):
+def find_sinks(fn, length_fields=(), compare=False, taint=None, skip_alloc=False):
     """[(sink instruction, operand ref, kind)]"""
     sinks = []
     for i in fn.all_insts():
-        if i.op == 'call' and i.callee in ALLOC_SIZE_ARGS:
+        if i.op == 'call' and i.callee in ALLOC_SIZE_ARGS and not skip_alloc:
             for k in ALLOC_SIZE_ARGS[i.callee]:
                 if k < len(i.o):
                     sinks.append((i, i.o[k], 'size argument of %s' % i.callee))
@@ -173,13 +173,13 @@ def find_sinks(fn, length_fields=(), compare=False, taint=None):
     return sinks
 
 
-def check_entry(fn, rule, length_fields=(), compare=False, label=None, sub_in_compare=True, exempt=None):
+def check_entry(fn, rule, length_fields=(), compare=False, label=None, sub_in_compare=True, exempt=None, skip_alloc=False):
     """run the no-wrap rule on one entry point; returns number of obligations"""
     tnt = tainted(fn)
     pv = Prover(fn)
     done = {}
     n = 0
-    for sink, opnd, kind in find_sinks(fn, length_fields, compare):
+    for sink, opnd, kind in find_sinks(fn, length_fields, compare, skip_alloc=skip_alloc):
         sl = backward_slice(fn, opnd)
         for ins in sl.values():
             if ins.op not in ARITH or ins.ref not in tnt:
